@@ -802,6 +802,36 @@ pub fn c11_probe(w: &mut World, cx: &mut Cx, rng: &mut Rng) {
                     }
                 }
             }
+            // realised pnl of actual decreases (partial, dust-remainder, over-sized with capping): the
+            // pnl realised by the action must be pnl_value for the size the action really closed
+            // (a partial order can be promoted to a full close), i.e. the share proportional to it.
+            if rng.chance(1, 3) {
+                let dust = (full / 1_000_000).max(1);
+                let candidates = [partial, full.saturating_sub(dust).max(1), full.saturating_sub(1).max(1), full / 2 + 1, full];
+                let req = candidates[rng.below(candidates.len() as u64) as usize];
+                let mut mm = m.clone();
+                let mut pp = p;
+                if let Ok(rep) = do_decrease(&mut mm, &mut pp, pr1, &DecArgs::plain(req, 0)) {
+                    let closed = *rep.size_delta_usd();
+                    cx.count(if closed != req { "c11_real_decrease_size_adjusted" } else { "c11_real_decrease_size_as_requested" });
+                    if closed != 0 {
+                        if let Some(exp) = real_pnl(&m, &p, &pr1, closed) {
+                            if *rep.pnl().pnl() != exp.0 || *rep.pnl().uncapped_pnl() != exp.1 || *rep.size_delta_in_tokens() != exp.2 {
+                                let wv = json!({"position": pos_json(&p), "prices": prices_json(&pr1),
+                                    "requested_size_delta_usd": req.to_string(), "closed_size_delta_usd": closed.to_string(),
+                                    "realised": [rep.pnl().pnl().to_string(), rep.pnl().uncapped_pnl().to_string(), rep.size_delta_in_tokens().to_string()],
+                                    "pnl_value_for_closed_size": [exp.0.to_string(), exp.1.to_string(), exp.2.to_string()],
+                                    "removed": rep.should_remove(), "market": market_json(&m)});
+                                cx.violation("C11:decrease:realised_pnl_not_for_closed_size", || wv);
+                            } else {
+                                cx.count("c11_real_decrease_pnl_matches_closed_size");
+                            }
+                        }
+                    }
+                } else {
+                    cx.count("c11_real_decrease_failed");
+                }
+            }
             // realised pnl of actual full closes at both prices
             if rng.chance(1, 4) {
                 let close = |pr: &Prices<T>| {
